@@ -348,6 +348,7 @@ class IMAPConnection:
         try:
             await self._run_state(state)
         finally:
+            state.do_disconnect()
             self._print('%s ---| %s', b'<disconnected>')
 
     async def _run_state(self, state: ConnectionState) -> None:
